@@ -65,7 +65,7 @@ func protectedLeaf(leaf string) bool {
 		return false
 	}
 	for _, p := range []string{"G:" + r + ".ghost.", "F:" + r + ".Entry.", "F:" + r + ".dualWriter.", "F:" + r + ".logwr.", "F:" + r + ".filewr.",
-		"E:" + r + ".LogWriter", "M:map[" + r + ".Level]", "M:map[string]" + r + ".Level", "M:map[int]map[" + r + ".Level]"} {
+		"E:" + r + ".LogWriter", "M:map[" + r + ".Level]", "M:map[string]" + r + ".Level", "M:map[int]map[" + r + ".Level]", "M:map[string]*" + r + ".Entry."} {
 		if strings.HasPrefix(leaf, p) {
 			return true
 		}
